@@ -44,11 +44,16 @@ CONTRACTS.update({
  'ChannelItem.set_dimension_and_repr_code_from_data': dict(
     props=['C08'], self_fields=CH_FIELDS, params={'data': {'cls': 'SourceDataWrapper', 'fields': {}}}, returns='none',
     requires=[CODE_MATCHES],
-    stubs={'__getitem__': dict(returns='opq:ndarray', raises=True, pure=True), '_set_dimension_from_data': dict(returns='none', raises=True)},
+    ghost={'dimension_compared': ('bool', 'False')},
+    stubs={'__getitem__': dict(returns='opq:ndarray', raises=True, pure=True),
+           '_set_dimension_from_data': dict(returns='none', raises=True, ghost_set={'dimension_compared': 'True'})},
     may_raise=['ValueError'], modifies=['self._cast_dtype', 'self.representation_code._value'],
     exc_modifies=['self._cast_dtype', 'self.representation_code._value'],
     ensures=[('declared-code-is-the-code-of-the-dtype-written', CODE_MATCHES),
-             ('a-cast-dtype-is-known-after-setup', 'self._cast_dtype is not None')]),
+             ('a-cast-dtype-is-known-after-setup', 'self._cast_dtype is not None'),
+             # C08 "DIMENSION ... equal to the row shape of the data": whatever the user stated beforehand, the data's row shape is
+             # compared with it (and adopted when nothing was stated) on every set-up that returns normally
+             ('stated-dimension-is-always-checked-against-the-data', 'dimension_compared')]),
 })
 
 MODELS = {'ReprCodeAttribute': RCA, 'ChannelItem': {'fields': CH_FIELDS, 'inv': []}}
